@@ -102,9 +102,17 @@ def run(tier, seed):
                 for k in range(i + 1, len(names)):
                     ni, mi, si = moments(cl[names[i]])
                     nk, mk, sk = moments(cl[names[k]])
-                    zs = abs(math.log(si / sk)) / math.sqrt(1 / (2 * ni) + 1 / (2 * nk))
-                    zm = abs(mi - mk) / math.sqrt(si * si / ni + sk * sk / nk)
-                    report["independence %d %s %s-vs-%s" % (lam, gc, names[i], names[k])] = {"z_stdev": zs, "z_mean": zm}
+                    # Input independence with an equivalence margin.  The gadget truncation is a floor, so a part of the output variance (the
+                    # term n/2 (N/2)^2 2^(-2 l Bgbit - 2)/3: 13 % of the total for the 128-bit set, 28 % for the 80-bit set) depends on the *position* p of
+                    # the rotated phase; input classes with different phase distributions (e.g. phases forced to +-1/8 +-1/32) therefore differ
+                    # legitimately by a few per cent in stdev (measured over 1.8e6 outputs: 4-7 %; analytic ceiling sqrt(1.28) - 1 = 13 %).  A
+                    # difference is a violation only if it exceeds 15 % in stdev, or bound/4 in mean, by more than 6 estimator standard errors.
+                    se_s = math.sqrt(1 / (2 * ni) + 1 / (2 * nk))
+                    se_m = math.sqrt(si * si / ni + sk * sk / nk)
+                    B = BOUND[lam] * (MUXF if gc == "mux" else 1.0)
+                    zs = (abs(math.log(si / sk)) - math.log(1.15)) / se_s
+                    zm = (abs(mi - mk) - B / 4) / se_m
+                    report["independence %d %s %s-vs-%s" % (lam, gc, names[i], names[k])] = {"stdev_ratio": si / sk, "mean_difference": mi - mk, "z_beyond_15pct": zs, "z_beyond_bound_over_4": zm}
                     if zs > Z or zm > Z:
                         fail("output noise depends on the inputs: %d %s, classes %s (n=%d, mean %.3e, sd %.3e) vs %s (n=%d, mean %.3e, sd %.3e): z=%.1f/%.1f" %
                              (lam, gc, names[i], ni, mi, si, names[k], nk, mk, sk, zs, zm), "c02/stat/independence")
@@ -118,7 +126,7 @@ def run(tier, seed):
                 "balanced trees, fan-out, in-place accumulators, ripple-carry adders, comparators, MUX trees, and gates whose inputs are forged to the admissible maximum +-1/32 right before use. "
                 "Oracle 1: plaintext interpreter after every step (decryption of every written wire, |phase error| < 3/64) and a final scan of all wires. Oracle 2 (E5): phase errors of all bootstrapped "
                 "outputs pooled per (parameter set, gate class in {binary, MUX}, input class in {fresh, mid, deep>=50, forged-max}) and per key seed; one-sided z=6 tests: stdev <= bound "
-                "(3.7e-3 / 4.7e-3, x1.35 MUX), |mean| <= bound/4 (pooled and per key), pairwise input-class independence of stdev and mean. Non-trivial = a netlist containing a gate whose inputs are "
+                "(3.7e-3 / 4.7e-3, x1.35 MUX), |mean| <= bound/4 (pooled and per key), pairwise input-class independence (stdev ratio within 15 %, mean difference within bound/4, beyond 6 standard errors). Non-trivial = a netlist containing a gate whose inputs are "
                 "gate outputs; distinct by case hash. evaluations counts netlists; coverage.bootstrapped_outputs_measured counts gate outputs.")
     res.assumptions = ["statistical tests are one-sided against the property's own bounds at 6 estimator standard deviations (p<1e-9 per statistic)",
                        "per-key mean test is sound because key-switching-key noise is recentred at key generation (mechanism named in the property)"]
